@@ -73,7 +73,9 @@ def gen_cont(rng, stateful=False, rich=False):
                 ends.append(t)
             sc["servers"].append({"nums": [rng.choice([1, 2, 3]) for _ in range(m)], "ends": ends,
                                   "pre": rng.choice([False, False, "resume", "restart", "resample"]),
-                                  "off": rng.choice([0.0, 0.0, 1.5])})
+                                  # distinct offsets: two timetables starting at the same instant are coinciding
+                                  # events (outside C16's scope: a re-entry then draws the tie-break once more)
+                                  "off": round(rng.choice([0.0, 0.0, 1.5]) + 0.173 * n, 3)})
         sc["qcap"].append(rng.choice(["inf", "inf", 0, 1, 3]) if sc["servers"][-1] != "inf" else "inf")
     # pre-emptive schedules and blocking together is finding F4: keep downstream uncapacitated then
     if any(isinstance(s, dict) and s["pre"] for s in sc["servers"]):
